@@ -182,6 +182,7 @@ func (fr *frame) execInstr(ins ssa.Instruction, st *State, reach *string) bool {
 			fr.ex.returnPos = append(fr.ex.returnPos, fr.ex.posOf(x.Pos()))
 		}
 		fr.checkJoined(*reach)
+		fr.checkContrib(*reach)
 		fr.rets = append(fr.rets, retPoint{reach: *reach, vals: vals, st: st})
 		return true
 	case *ssa.Panic:
@@ -293,10 +294,35 @@ func (ex *Exec) binopT(op token.Token, opT types.Type, resT types.Type, a, b Val
 		case token.SUB:
 			return scalar(resT, wrapInt(resT, app("-", x, y)))
 		case token.MUL:
+			if _, cx := isConstTerm(x); !cx {
+				if _, cy := isConstTerm(y); !cy && ex.pure == 0 {
+					// product of two unknowns in executed code: kept uninterpreted (nonlinear terms make every other
+					// obligation of the unit undecidable for the solvers); only its sign is known
+					ex.declareFun("nl.mul", []string{sInt, sInt}, sInt)
+					ex.used["uninterpreted: product of two non-constant integers in executed code"] = true
+					m := ex.name("nlmul", app("nl.mul", x, y), sInt)
+					ex.assume(and(imp(or(eq(x, "0"), eq(y, "0")), eq(m, "0")), imp(and(app(">", x, "0"), app(">", y, "0")), app(">", m, "0"))))
+					return scalar(resT, wrapInt(resT, m))
+				}
+			}
 			return scalar(resT, wrapInt(resT, app("*", x, y)))
 		case token.QUO, token.REM:
 			if safety != nil {
 				safety(not(eq(y, "0")), "integer divide by zero")
+			}
+			if _, cy := isConstTerm(y); !cy && ex.pure == 0 {
+				ex.declareFun("nl.quo", []string{sInt, sInt}, sInt)
+				ex.declareFun("nl.rem", []string{sInt, sInt}, sInt)
+				ex.used["uninterpreted: integer division by a non-constant in executed code"] = true
+				if op == token.QUO {
+					qv := ex.name("nlquo", app("nl.quo", x, y), sInt)
+					// |x/y| <= |x| and the sign rule
+					ex.assume(and(imp(and(app(">=", x, "0"), app(">", y, "0")), and(app("<=", "0", qv), app("<=", qv, x))), imp(eq(x, "0"), eq(qv, "0"))))
+					return scalar(resT, wrapInt(resT, qv))
+				}
+				rv := ex.name("nlrem", app("nl.rem", x, y), sInt)
+				ex.assume(imp(and(app(">=", x, "0"), app(">", y, "0")), and(app("<=", "0", rv), app("<", rv, y))))
+				return scalar(resT, rv)
 			}
 			var q string
 			if !signed {
